@@ -135,6 +135,10 @@ def rules(ctx):
     flownet.need(ctx, "R1.trip-lower-bound", edges, "trip", "lower_bound", [call(REQ), call(MFC), "param:2"],
                  "trip edges must carry min(required vehicles, applicable formation limit of that trip)")
     required_vehicles_pairing(ctx)
+    from .C17 import loader_subset as _ls
+    _ls(ctx, ["create_service_trip."])     # demand and limit of a departure are those of its own route segment
+    from .C06 import overflow_default
+    overflow_default(ctx, "R1")            # the unlimited-formation default is the same where demand is bounded and where the overflow depot is sized
     from .C14 import every_type_is_solved
     every_type_is_solved(ctx, "R1")     # the start solution that covers the demand exists for every vehicle type
     formation_getters(ctx)
